@@ -66,6 +66,199 @@ def const_value(node, default=None):
 # --------------------------------------------------------------------------- records
 
 
+
+def subst_slot(b, use, val, scoped=frozenset()):
+    """Where statement `b` reads the name node `use`: ("whole", object, field) when `use` is the whole header expression of b
+    (`x = v`, `return v`, `if v:`), ("inner", b, use) when it sits inside the header expression at a place where moving the
+    evaluation of `val` from the statement before b to that place cannot change anything — `use` is evaluated unconditionally and
+    what b evaluates before it cannot interfere with `val` — else None."""
+    roots = []
+    pre0 = []
+    if isinstance(b, ast.Assign | ast.AnnAssign | ast.Return | ast.Expr) and b.value is not None:
+        roots = [(b, "value")]
+    elif isinstance(b, ast.AugAssign):
+        roots = [(b, "value")]
+        pre0 = ["name" if isinstance(b.target, ast.Name) else "load"]
+    elif isinstance(b, ast.If):
+        roots = [(b, "test")]
+    elif isinstance(b, ast.For):
+        roots = [(b, "iter")]
+    elif isinstance(b, ast.Raise) and b.exc is not None and b.cause is None:
+        roots = [(b, "exc")]
+    elif isinstance(b, ast.Assert) and b.msg is None:
+        roots = [(b, "test")]
+    for obj, fld in roots:
+        root = getattr(obj, fld)
+        if not any(x is use for x in ast.walk(root)):
+            continue
+        if root is use:
+            return ("whole", obj, fld) if not pre0 or pre0 == ["name"] else None
+        events = [("load", None) if x == "load" else x for x in pre0]
+        state = {"found": False, "bad": False}
+
+        def _root(e):
+            while isinstance(e, ast.Attribute | ast.Subscript):
+                e = e.value
+            return e.id if isinstance(e, ast.Name) else None
+
+        def walk(e, cond):
+            if state["found"] or state["bad"]:
+                return
+            if e is use:
+                if cond:
+                    state["bad"] = True
+                state["found"] = True
+                return
+            if isinstance(e, ast.Name):
+                events.append("name")
+            elif isinstance(e, ast.Constant):
+                pass
+            elif isinstance(e, ast.Attribute):
+                walk(e.value, cond)
+                if not state["found"]:
+                    events.append(("load", _root(e)))
+            elif isinstance(e, ast.Subscript):
+                walk(e.value, cond)
+                walk(e.slice, cond)
+                if not state["found"]:
+                    events.append(("load", _root(e)))
+            elif isinstance(e, ast.Slice):
+                for x in (e.lower, e.upper, e.step):
+                    if x is not None:
+                        walk(x, cond)
+            elif isinstance(e, ast.Call):
+                if isinstance(e.func, ast.Name):
+                    events.append("name")
+                else:
+                    walk(e.func, cond)
+                for x in e.args:
+                    walk(x.value if isinstance(x, ast.Starred) else x, cond)
+                for k in e.keywords:
+                    walk(k.value, cond)
+                if not state["found"]:
+                    events.append("call")
+            elif isinstance(e, ast.BinOp):
+                walk(e.left, cond)
+                walk(e.right, cond)
+            elif isinstance(e, ast.UnaryOp):
+                walk(e.operand, cond)
+            elif isinstance(e, ast.Compare):
+                walk(e.left, cond)
+                for i_, c_ in enumerate(e.comparators):
+                    walk(c_, cond or i_ > 0)  # a chained comparison stops at the first false link
+            elif isinstance(e, ast.BoolOp):
+                for i_, v_ in enumerate(e.values):
+                    walk(v_, cond or i_ > 0)
+            elif isinstance(e, ast.IfExp):
+                walk(e.test, cond)
+                walk(e.body, True)
+                walk(e.orelse, True)
+            elif isinstance(e, ast.Tuple | ast.List | ast.Set):
+                for x in e.elts:
+                    walk(x.value if isinstance(x, ast.Starred) else x, cond)
+            elif isinstance(e, ast.Dict):
+                for k_, v_ in zip(e.keys, e.values):
+                    if k_ is not None:
+                        walk(k_, cond)
+                    walk(v_, cond)
+            elif isinstance(e, ast.JoinedStr):
+                for x in e.values:
+                    walk(x, cond)
+            elif isinstance(e, ast.FormattedValue):
+                walk(e.value, cond)
+                if e.format_spec is not None:
+                    walk(e.format_spec, cond)
+            else:
+                # comprehensions, lambdas, walrus, await, yield: not a place to move an evaluation into or across
+                if any(x is use for x in ast.walk(e)):
+                    state["bad"] = True
+                else:
+                    events.append("call")
+
+        walk(root, False)
+        if state["bad"] or not state["found"]:
+            return None
+        has_call = any(isinstance(x, ast.Call) for x in ast.walk(val))
+        has_load = any(isinstance(x, ast.Attribute | ast.Subscript) for x in ast.walk(val))
+        if has_call:
+            # reads of names, and of attributes / items of objects the moved value does not touch (it neither calls them nor is
+            # given them): the moved calls cannot rebind what those reads fetch
+            touched = {x.id for x in ast.walk(val) if isinstance(x, ast.Name)}
+            ok_ = all(ev == "name" or (isinstance(ev, tuple) and ev[1] is not None and ev[1] not in touched) for ev in events)
+        elif has_load:
+            ok_ = "call" not in events
+        else:
+            ok_ = not ({x.id for x in ast.walk(val) if isinstance(x, ast.Name)} & set(scoped))
+        return ("inner", b, use) if ok_ else None
+    return None
+
+
+def subst_candidates(n):
+    """{local name: [(block list, defining Assign, slot)]} for locals of function `n` whose every binding `v = E` is consumed by
+    the statement right after it and that nothing else reads."""
+    params = {a.arg for a in ast.walk(n.args) if isinstance(a, ast.arg)}
+    scoped = {nm for x in ast.walk(n) if isinstance(x, ast.Global | ast.Nonlocal) for nm in x.names}
+    stores, reads = {}, {}
+    for x in ast.walk(n):
+        if isinstance(x, ast.Name):
+            (stores if isinstance(x.ctx, ast.Store | ast.Del) else reads).setdefault(x.id, []).append(x)
+    pairs = {}
+    for blk_owner in ast.walk(n):
+        for fld in ("body", "orelse", "finalbody"):
+            blk = getattr(blk_owner, fld, None)
+            if not (isinstance(blk, list) and blk and isinstance(blk[0], ast.stmt)):
+                continue
+            for i in range(len(blk) - 1):
+                a, b = blk[i], blk[i + 1]
+                if not (isinstance(a, ast.Assign) and len(a.targets) == 1 and isinstance(a.targets[0], ast.Name)):
+                    continue
+                v = a.targets[0].id
+                if v in params or v in scoped or isinstance(a.value, ast.Name | ast.Constant):
+                    continue
+                if any(isinstance(x, ast.NamedExpr | ast.Yield | ast.YieldFrom | ast.Await | ast.Lambda) for x in ast.walk(a.value)):
+                    continue
+                for use in reads.get(v, []):
+                    sl = subst_slot(b, use, a.value, scoped)
+                    if sl is not None:
+                        pairs.setdefault(v, []).append((blk, a, sl))
+    return {v: ps for v, ps in pairs.items() if len(ps) == len(stores.get(v, [])) == len(reads.get(v, [])) and len({id(a) for _, a, _ in ps}) == len(ps)}
+
+
+def apply_subst(ps):
+    for blk, a, sl in ps:
+        if sl[0] == "inner":
+            _, b_, use_ = sl
+
+            class _R(ast.NodeTransformer):
+                def visit_Name(self, node):
+                    return a.value if node is use_ else node
+
+            for fld_ in ("value", "test", "iter", "exc"):
+                if isinstance(getattr(b_, fld_, None), ast.AST):
+                    setattr(b_, fld_, _R().visit(getattr(b_, fld_)))
+        else:
+            _, obj, fld = sl
+            setattr(obj, fld, a.value)
+        blk[:] = [st for st in blk if st is not a]
+
+
+def forward_substitute(n, keep_local=None):
+    """`v = E` followed by the one statement that reads v  ->  that statement with E in place of v.  Naming an intermediate value
+    does not change what is computed.  A value consumed *whole* (`x = v`, `return v`, `if v:`) is always substituted; a value
+    used inside a larger expression only when `keep_local(function name, v)` is false, i.e. when the local is not one the pinned
+    tree has (the rules were written against the pinned tree's own temporaries and keep seeing those)."""
+    changed = True
+    while changed:
+        changed = False
+        for v, ps in subst_candidates(n).items():
+            whole = all(sl[0] == "whole" for _, _, sl in ps)
+            if not whole and (keep_local is None or keep_local(n, v)):
+                continue
+            apply_subst(ps)
+            changed = True
+            break
+
+
 class Canon(ast.NodeTransformer):
     """Canonical form applied to every module before analysis, so that behaviour-preserving
     re-spellings give the SAME tree (and therefore the same verdict):
@@ -76,6 +269,16 @@ class Canon(ast.NodeTransformer):
 
     FLIP = {ast.Gt: ast.Lt, ast.GtE: ast.LtE}
     SYMM = (ast.Eq, ast.NotEq, ast.Is, ast.IsNot)
+
+    def __init__(self, pinned_locals=None):
+        super().__init__()
+        # {function name: set of local names} of the pinned tree for this module (None: no baseline -> keep every local)
+        self.pinned_locals = pinned_locals
+
+    def keep_local(self, fn_node, v):
+        if self.pinned_locals is None:
+            return True
+        return v in self.pinned_locals.get(fn_node.name, ())
 
     @staticmethod
     def _has_walrus(e):
@@ -153,54 +356,8 @@ class Canon(ast.NodeTransformer):
                 if isinstance(f.target, ast.Tuple) and len(f.target.elts) == 2 and isinstance(f.target.elts[0], ast.Name) and f.target.elts[0].id not in loads and not isinstance(f.iter.args[0], ast.Starred):
                     f.target = f.target.elts[1]
                     f.iter = f.iter.args[0]
-        # v = E ; x = v   /   v = E ; return v   /   v = E ; if v: ...     ->   the statement with E in place of v
-        # when v is a plain local bound exactly once and read exactly once in the function (naming an intermediate value does not
-        # change what is computed: E is still evaluated first, and nothing else reads the name)
-        params = {a.arg for a in ast.walk(n.args) if isinstance(a, ast.arg)}
-        scoped = {nm for x in ast.walk(n) if isinstance(x, ast.Global | ast.Nonlocal) for nm in x.names}
-        changed = True
-        while changed:
-            changed = False
-            stores, reads = {}, {}
-            for x in ast.walk(n):
-                if isinstance(x, ast.Name):
-                    (stores if isinstance(x.ctx, ast.Store | ast.Del) else reads).setdefault(x.id, []).append(x)
-
-            def slot(b, use):
-                """(object, field) when `use` is the whole value of b's first-evaluated expression"""
-                if isinstance(b, ast.Assign | ast.AnnAssign | ast.Return | ast.Expr) and b.value is use:
-                    return b, "value"
-                if isinstance(b, ast.If) and b.test is use:
-                    return b, "test"
-                return None
-
-            pairs = {}
-            for blk_owner in ast.walk(n):
-                for fld in ("body", "orelse", "finalbody"):
-                    blk = getattr(blk_owner, fld, None)
-                    if not (isinstance(blk, list) and blk and isinstance(blk[0], ast.stmt)):
-                        continue
-                    for i in range(len(blk) - 1):
-                        a, b = blk[i], blk[i + 1]
-                        if not (isinstance(a, ast.Assign) and len(a.targets) == 1 and isinstance(a.targets[0], ast.Name)):
-                            continue
-                        v = a.targets[0].id
-                        if v in params or v in scoped or isinstance(a.value, ast.Name | ast.Constant):
-                            continue
-                        if any(isinstance(x, ast.NamedExpr | ast.Yield | ast.YieldFrom | ast.Await | ast.Lambda) for x in ast.walk(a.value)):
-                            continue
-                        for use in reads.get(v, []):
-                            sl = slot(b, use)
-                            if sl is not None:
-                                pairs.setdefault(v, []).append((blk, a, sl))
-            for v, ps in pairs.items():
-                # every store of v is consumed by the statement right after it, and nothing else reads v
-                if len(ps) == len(stores.get(v, [])) == len(reads.get(v, [])) and len({id(a) for _, a, _ in ps}) == len(ps):
-                    for blk, a, (obj, fld) in ps:
-                        setattr(obj, fld, a.value)
-                        blk[:] = [st for st in blk if st is not a]
-                    changed = True
-                    break
+        # v = E ; <statement that reads v once>   ->   the statement with E in place of v      (see forward_substitute)
+        forward_substitute(n, self.keep_local)
         return n
 
     visit_AsyncFunctionDef = visit_FunctionDef
@@ -283,13 +440,33 @@ class Canon(ast.NodeTransformer):
 _SINGLETONS = (ast.expr_context, ast.operator, ast.unaryop, ast.cmpop, ast.boolop)
 
 
+_PINNED_LOCALS = None
+
+
+def _pinned_locals(module_name):
+    """{function name: local names} of the pinned tree for one module; {} for a module the pinned tree does not have (all its
+    temporaries are new); None when there is no baseline (nothing is substituted beyond whole-value temporaries)."""
+    global _PINNED_LOCALS
+    if _PINNED_LOCALS is None:
+        import json as _json
+        from pathlib import Path as _P
+
+        try:
+            _PINNED_LOCALS = _json.loads(_P(__file__).with_name("baseline_functions.json").read_text()).get("locals") or False
+        except Exception:
+            _PINNED_LOCALS = False
+    if _PINNED_LOCALS is False:
+        return None
+    return {f: set(v) for f, v in _PINNED_LOCALS.get(module_name, {}).items()}
+
+
 class Module:
     def __init__(self, name, path, relpath, source):
         self.name = name
         self.path = path
         self.relpath = relpath
         self.source = source
-        self.tree = ast.fix_missing_locations(Canon().visit(ast.parse(source, filename=str(path))))
+        self.tree = ast.fix_missing_locations(Canon(_pinned_locals(name)).visit(ast.parse(source, filename=str(path))))
         from .inline import desugar_match, inline_compiled_regexes, inline_new_helpers, normalise_idioms, normalise_map_calls
 
         self.idioms = desugar_match(self.tree) + normalise_map_calls(self.tree) + normalise_idioms(self.tree) + inline_compiled_regexes(self.tree)
